@@ -368,3 +368,8 @@ def run(chk, c):
     mixing_angle(chk, c)
     from .C04b import goldstone
     goldstone(chk, c, pid='C08', fn_name='reorder_MSbar_masses')
+    # calculate_Mhh / MAh / MHm: matrix handed to the decomposition, tachyon flag iff a negative eigenvalue
+    from . import C04b
+    from .C08 import CONST_AX
+    c.mats = {k_: v_[0] for k_, v_ in c.mat.items()}
+    C04b.run(chk, c, steps=[('hh', 0, True), ('Ah', 1, True), ('Hm', 2, True)], pid='C08', const_ax=CONST_AX, do_goldstone=False)
